@@ -24,19 +24,20 @@ ASSUME = [
     "attribute equalities within one step are non-contradictory (as the property states)",
 ]
 
-NAMES = ["a", "b", "c"]
+NAMES = ["a", "b", "c", "a", "b", "c", "x-y", "n_1", "a.b", "é1"]
+VALUES = ["1", "2", "1", "2", "v w", "", "x" * 40, "é", "a'b"]
 
 
 def gen_tree(rng, depth=0, ns=""):
     at = []
     for an in ["k", "m"]:
         if rng.random() < 0.3:
-            at.append(["", an, rng.choice(["1", "2"])])
+            at.append(["", an, rng.choice(VALUES)])
     if rng.random() < 0.1:
-        at.append(["urn:p", "k", rng.choice(["1", "2"])])
+        at.append(["urn:p", "k", rng.choice(VALUES)])
     kids = []
     if depth < 3:
-        for _ in range(rng.randrange(0, 4)):
+        for _ in range(rng.randrange(0, 4) if rng.random() < 0.93 else rng.randrange(8, 14)):
             r = rng.random()
             if r < 0.7:
                 kids.append(gen_tree(rng, depth + 1, ns if rng.random() < 0.85 else rng.choice(["", "urn:p"])))
@@ -63,7 +64,7 @@ def gen_expr(rng, root_name):
             if (apfx, an) in used:
                 continue
             used.add((apfx, an))
-            v = rng.choice(["1", "2"])
+            v = rng.choice([x for x in VALUES if '"' not in x])
             preds.append(rng.choice(['@%s%s="%s"', '"%s"=@%s%s'][0:1]) % (apfx, an, v) if rng.random() < 0.8 else '"%s"=@%s%s' % (v, apfx, an))
         if len(preds) == 2 and rng.random() < 0.5:
             s += "[%s and %s]" % tuple(preds)
